@@ -85,6 +85,15 @@ pub fn gen_rw_run(check: &str, seed: u64, tier: Tier) -> Run {
             run.ops.push(Op::new("add").t(t));
         }
     }
+    if w.chance(1, 4) {
+        // drive the same rule sets through Runner::run instead of bare apply_rewrites
+        for o in run.ops.iter_mut() {
+            if o.name == "rewrite" {
+                o.name = "runner".into();
+                o.i.insert(0, 1 + w.below(3) as i64);
+            }
+        }
+    }
     run.set("subst_method", w.below(2) as i64);
     run.set("node_budget", *w.pick(&[200, 600, 2000]));
     run.set("modify", w.chance(1, 2) as i64);
@@ -164,6 +173,24 @@ pub fn exec_la_op(s: &mut Sess<LA, SimAn>, op: &Op, run: &Run, pb: &Rc<RefCell<u
                 run_probes(s, op.int(0), op.int(1) as u64);
             }
             None
+        }
+        "runner" => {
+            // the same rules driven by Runner::run for a few iterations (i[0] = iteration limit)
+            let rules = make_rules(run, &op.i[1..], &mut s.nm, pb.clone());
+            let eg = std::mem::replace(&mut s.eg, new_la_egraph(run));
+            let an = SimAn { p: run.get("p").clamp(2, 11) as u32, modify: run.get("modify") != 0 };
+            let mut runner: Runner<LA, SimAn, (), String> = Runner::new(an)
+                .with_egraph(eg)
+                .with_iter_limit(op.int(0).clamp(0, 4) as usize)
+                .with_node_limit(run.get("node_budget").max(50) as usize);
+            // put the e-graph back even if the library panics, then let the panic continue
+            // (resume_unwind keeps the recorded panic information of the original panic)
+            let r = std::panic::catch_unwind(std::panic::AssertUnwindSafe(|| runner.run(&rules)));
+            s.eg = std::mem::replace(&mut runner.egraph, new_la_egraph(run));
+            if let Err(e) = r {
+                std::panic::resume_unwind(e);
+            }
+            Some(true)
         }
         "rewrite" => {
             let rules = make_rules(run, &op.i, &mut s.nm, pb.clone());
@@ -379,8 +406,9 @@ impl Check for RwCheck {
             let subst_rule = rule_pool(run.get("p") as u32).iter().position(|r| r.name == "let-subst").unwrap() as i64;
             let n = rule_pool(run.get("p") as u32).len() as i64;
             for o in run.ops.iter_mut() {
-                if o.name == "rewrite" {
-                    for i in o.i.iter_mut() {
+                if o.name == "rewrite" || o.name == "runner" {
+                    let skip = if o.name == "runner" { 1 } else { 0 };
+                    for i in o.i.iter_mut().skip(skip) {
                         if i.rem_euclid(n) == subst_rule {
                             *i = 0;
                         }
@@ -388,7 +416,7 @@ impl Check for RwCheck {
                 }
             }
         }
-        if self.id == "C14" {
+        if self.id == "C14" || (self.id == "C08R" && seed % 2 == 0) || (self.id == "C13R" && seed % 3 == 0) {
             // also raw unions (not model-valid): analysis propagation does not need validity
             let mut w = Rng::stream(seed, "unions");
             let mut binder = 300;
@@ -413,6 +441,8 @@ impl Check for RwCheck {
             "C03" => "1-2 seeded start terms over LA (arithmetic mod p in {3,5,7} with sum and let binders, uninterpreted constants), 1-6 iterations of apply_rewrites with a seeded subset of the 27 model-valid rules (each rule validated against M_field on 200 random instances at start-up), both substitution methods, optional constant-folding modify hook, probes from inside appliers and Analysis::make; after every iteration every e-node of every class with at most 3 slots is evaluated against its class table under all environments and two assignments of its redundant slots, every inserted term is evaluated directly; non-trivial = at least one iteration changed the e-graph and at least 50 e-node evaluations were compared; distinct = distinct canonical key",
             "C14" => "seeded LA histories of insertions, raw unions (runs without modify) and rewrite iterations with the simulator's analysis (min size, min depth, constant value mod p with optional modify hook); after every operation every live class's datum is recomputed as the join of make over its e-nodes, size is compared with value-iteration min cost, constants with the class's model table, equal invocations share one datum; non-trivial = at least one operation changed the e-graph after the first insertion and at least 10 classes were recomputed; distinct = distinct canonical key",
             "C11R" => "the C03 workload executed twice with identical knobs but different slot namings; the naming-independent fingerprint (node count, live classes, slot and symmetry sums, per-class (slots, nodes) multiset, equality partition and eq-matrix over all inserted terms), the analysis data and the best extraction cost of every inserted term must agree after every operation; non-trivial = at least one iteration changed the e-graph; distinct = distinct canonical key",
+            "C06R" => "the C03 workload (rewriting over LA: cyclic classes, classes whose cheapest node has redundant slots); after every rewrite iteration an Extractor for one of three strictly monotone cost functions is built and every live class with a finite term is extracted under three invocations (identity, renamed, own slots permuted) and checked as in C06; non-trivial = at least one iteration changed the e-graph and 3 extractions were checked; distinct = distinct canonical key",
+            "C13R" => "the C03 workload as a history: after every operation (insertions and rewrite iterations) the equal pairs recorded at earlier points, all old handles, per-term slot counts and the direction of the progress measure are re-checked; non-trivial = at least one change and at least one recorded pair re-checked; distinct = distinct canonical key",
             "C08R" => "the C03 workload (rewriting over LA with analysis, modify hook, both substitution methods) checked only for C08's clauses: no panic / fuel exhaustion in any operation, EGraph::check and the API-level structure clauses after every operation; non-trivial = at least one iteration changed the e-graph; distinct = distinct canonical key",
             _ => "",
         }
@@ -442,10 +472,16 @@ impl Check for RwCheck {
         let c03 = self.id == "C03";
         let c14 = self.id == "C14";
         let c08 = self.id == "C08R";
+        let c06 = self.id == "C06R";
+        let c13 = self.id == "C13R";
         let prop = if c08 { "C08" } else { self.id };
+        let cost_kind = [SimCost::Size, SimCost::PositionWeighted, SimCost::OpWeighted][(run.get("oracle_seed") % 3) as usize];
+        let mut recorded_pairs: Vec<(AppliedId, AppliedId, usize)> = Vec::new();
+        let mut prev_progress = s.eg.progress();
+        let mut prev_slots: Vec<usize> = Vec::new();
         for (k, op) in run.ops.iter().enumerate() {
             s.cur_op = k;
-            if s.eg.total_number_of_nodes() > budget && op.name == "rewrite" {
+            if s.eg.total_number_of_nodes() > budget && (op.name == "rewrite" || op.name == "runner") {
                 out.bump("node_budget_reached");
                 continue;
             }
@@ -454,10 +490,10 @@ impl Check for RwCheck {
             out.ops_executed += 1;
             match r {
                 Err(pn) => {
-                    if pn.msg.starts_with("harness:") || pn.loc.contains("/verif/sim/") {
+                    if pn.msg.starts_with("harness:") || pn.is_harness() {
                         panic!("harness panic: {} at {}", pn.msg, pn.loc);
                     }
-                    if c08 {
+                    if c08 || std::env::var("SIM_PANIC_AS_VIOLATION").is_ok() {
                         out.violations.push(panic_violation("C08", "no_panic", &pn, k));
                     } else {
                         out.discarded = Some("panic".into());
@@ -470,7 +506,7 @@ impl Check for RwCheck {
                 changes += 1;
             }
             let res = catch_op(|| -> Option<Violation> {
-                if c03 && op.name == "rewrite" {
+                if c03 && (op.name == "rewrite" || op.name == "runner") {
                     return semantic_check(&mut s, p, &mut orng, &mut out, k);
                 }
                 if c14 {
@@ -483,15 +519,71 @@ impl Check for RwCheck {
                         Err((clause, detail)) => Some(viol("C08", &clause, detail, k)),
                     };
                 }
+                if c06 && (op.name != "add" || k + 1 == run.ops.len()) {
+                    return super::extract::check_extraction(&mut s, cost_kind, &mut orng, &mut out, k);
+                }
+                if c13 {
+                    // history checker under rewriting: recorded equalities, slot counts, progress
+                    let now = s.eg.progress();
+                    let ok = if now.number_of_classes != prev_progress.number_of_classes {
+                        now.number_of_classes > prev_progress.number_of_classes
+                    } else if now.number_of_live_classes != prev_progress.number_of_live_classes {
+                        now.number_of_live_classes < prev_progress.number_of_live_classes
+                    } else if now.sum_of_slots != prev_progress.sum_of_slots {
+                        now.sum_of_slots < prev_progress.sum_of_slots
+                    } else {
+                        now.sum_of_symmetries >= prev_progress.sum_of_symmetries
+                    };
+                    if !ok {
+                        return Some(viol("C13", "progress_direction", format!("progress moved against its documented direction at {}", op.short()), k));
+                    }
+                    prev_progress = now;
+                    for (a, b, at) in &recorded_pairs {
+                        if !s.eg.eq(a, b) {
+                            return Some(viol("C13", "equality_lost", format!("{a:?} = {b:?} held after op {at} but not after op {k}"), k));
+                        }
+                    }
+                    out.count("recorded_pairs_rechecked", recorded_pairs.len() as u64);
+                    for i in 0..s.tracked.len() {
+                        let h = s.tracked[i].h.clone();
+                        let f = s.eg.find_applied_id(&h);
+                        if !s.eg.is_alive(f.id) || !s.eg.eq(&h, &f) {
+                            return Some(viol("C13", "old_handle_unusable", format!("old handle {h:?} canonicalises to {f:?} which is dead or unequal"), k));
+                        }
+                        let n = f.slots().len();
+                        if i < prev_slots.len() {
+                            if n > prev_slots[i] {
+                                return Some(viol("C13", "slots_only_shrink", format!("{}: {} slots before, {n} now", s.tracked[i].tm, prev_slots[i]), k));
+                            }
+                            prev_slots[i] = n;
+                        } else {
+                            prev_slots.push(n);
+                        }
+                    }
+                    let nt = s.tracked.len();
+                    for i in 0..nt.min(10) {
+                        for j in (i + 1)..nt.min(10) {
+                            let a = s.tracked[i].h.clone();
+                            let b = s.tracked[j].h.clone();
+                            if recorded_pairs.len() < 200 && s.eg.eq(&a, &b) && !recorded_pairs.iter().any(|(x, y, _)| *x == a && *y == b) {
+                                recorded_pairs.push((a, b, k));
+                            }
+                        }
+                    }
+                }
                 None
             });
             match res {
                 Err(pn) => {
-                    if pn.msg.starts_with("harness:") || pn.loc.contains("/verif/sim/") {
+                    if pn.msg.starts_with("harness:") || pn.is_harness() {
                         panic!("harness panic: {} at {}", pn.msg, pn.loc);
                     }
                     if c08 {
                         out.violations.push(panic_violation("C08", "check", &pn, k));
+                    } else if c06 {
+                        out.violations.push(panic_violation("C06", "extraction_succeeds", &pn, k));
+                    } else if c13 {
+                        out.violations.push(panic_violation("C13", "old_handle_unusable", &pn, k));
                     } else {
                         out.discarded = Some("panic_in_query".into());
                     }
@@ -519,7 +611,9 @@ impl Check for RwCheck {
         out.log_hash = s.log_hash ^ crate::rng::hash_str(&fingerprint(&mut s));
         let evals = out.counters.get("enode_evaluations").copied().unwrap_or(0);
         let recomputed = out.counters.get("classes_recomputed").copied().unwrap_or(0);
-        out.nontrivial = out.discarded.is_none() && changes >= 1 && ((c03 && evals >= 50) || (c14 && recomputed >= 10) || c08);
+        let extr = out.counters.get("extractions_checked").copied().unwrap_or(0);
+        let rechecked = out.counters.get("recorded_pairs_rechecked").copied().unwrap_or(0);
+        out.nontrivial = out.discarded.is_none() && changes >= 1 && ((c03 && evals >= 50) || (c14 && recomputed >= 10) || c08 || (c06 && extr >= 3) || (c13 && rechecked >= 1));
         out
     }
 }
@@ -540,7 +634,7 @@ fn exec_c11r(run: &Run) -> Outcome {
         let mut obs: Vec<String> = Vec::new();
         for (k, op) in run.ops.iter().enumerate() {
             s.cur_op = k;
-            if s.eg.total_number_of_nodes() > budget && op.name == "rewrite" {
+            if s.eg.total_number_of_nodes() > budget && (op.name == "rewrite" || op.name == "runner") {
                 obs.push("skipped".into());
                 continue;
             }
